@@ -4,6 +4,7 @@
 //   stage genuine  "<same line>\t<property verdict on the real outcome>\t<expected>" (oracle, no driver)
 //   stage aud      "<aud line>\t<real GetAudiences/WithFragment/stripPort lists>"   (driver drv_c01)
 //   stage handlers "<handler line>\t<control-flow paths re-derived from api/*.go>"  (driver drv_c01)
+//   stage history  "<auth line for the configuration left by admin operations>\t<outcome>" (driver drv_c01)
 package main
 
 import (
@@ -119,7 +120,7 @@ func main() {
 	n := flag.Int("n", 2000, "number of generated cases")
 	out := flag.String("out", "", "output file")
 	replay := flag.String("replay", "", "file of lines with case=x… fields to re-run")
-	stage := flag.String("stage", "auth", "auth | genuine | aud | handlers")
+	stage := flag.String("stage", "auth", "auth | genuine | aud | handlers | history | http")
 	flips := flag.Bool("flips", false, "add every single-bit flip of one valid token per credential type")
 	flag.Parse()
 	o, err := c.NewOut(*out)
@@ -134,6 +135,14 @@ func main() {
 		return
 	case "handlers":
 		handlerStage(o)
+		return
+	case "http":
+		log.SetOutput(io.Discard)
+		httpStage(o, *n, *replay)
+		return
+	case "history":
+		log.SetOutput(io.Discard)
+		historyStage(o, *n, *replay)
 		return
 	}
 	log.SetOutput(io.Discard) // the authority logs every provisioner that fails to initialise
